@@ -66,6 +66,8 @@ class Recorder:
         self.faults = dict(faults or {})  # call index -> kind filter (or True)
         self.faults_fired = []
         self.always = set()  # (kind, name) pairs that raise at every call
+        self.occ_faults = set()  # (kind, name, k): the k-th call of that callable raises (independent of other calls' indices)
+        self.occ_seen = {}
         self.abort_cb = None
         self.call_kinds = []  # kind per call index (for enumeration runs)
         self.keep_call_kinds = False
@@ -91,6 +93,14 @@ class Recorder:
         idx = self.calls
         if self.keep_call_kinds:
             self.call_kinds.append((kind, name))
+        if self.occ_faults:
+            key = (kind, name)
+            n = self.occ_seen.get(key, 0) + 1
+            self.occ_seen[key] = n
+            if (kind, name, n) in self.occ_faults:
+                self.faults_fired.append((idx, kind, name))
+                self.rec("fault", idx, kind, name)
+                raise InjectedFault(f"injected@{idx}:{kind}:{name}")
         if self.always and (kind, name) in self.always:
             self.faults_fired.append((idx, kind, name))
             self.rec("fault", idx, kind, name)
@@ -187,3 +197,18 @@ class RecPlugin:
         self.r.tick()
         self.r.rec("error-hook", interp.id, type(error).__name__)
         self._h("on_error")
+
+
+class SecondPlugin:
+    """A second, well-behaved plugin registered after the recording one: it must be told about every action error too."""
+
+    def __init__(self, rec):
+        self.r = rec
+
+    def on_action_error(self, interp, action, error):
+        self.r.rec("acterr2", interp.id, getattr(action, "type", None))
+
+    def __getattr__(self, name):
+        if name.startswith("on_"):
+            return lambda *a, **k: None
+        raise AttributeError(name)
